@@ -4,11 +4,10 @@ Layer A model of `univers.versions.GentooVersion` (scheme `ebuild`) and
 (`is_valid`, `parse_version_and_revision`, `vercmp`), branch for branch.
 
 Neither class overrides `normalize` or `build_value`: the value is the normalized string.
-`GentooVersion` hand-writes `__eq__ __lt__ __gt__` through `gentoo.vercmp`; `__ne__` is the attrs
-one of `Version` (`not self.__eq__(other)`); `__le__` and `__ge__` are INHERITED from the attrs
-class `Version` and compare the 1-tuples `(self.value,)` of raw strings in code-point order;
-defining `__eq__` without `__hash__` makes both classes unhashable.  `AlpineLinuxVersion` only
-adds `is_valid_alpine_version` to `is_valid`.
+`GentooVersion` hand-writes `__eq__ __lt__ __gt__ __le__ __ge__` through `gentoo.vercmp`;
+`__ne__` is the attrs one of `Version` (`not self.__eq__(other)`); `__hash__` is
+`hash(gentoo.get_hash_key(self.value))`.  `AlpineLinuxVersion` only adds
+`is_valid_alpine_version` to `is_valid`.
 
 The regular expressions (`re`, standard library) are modelled by recognisers of their languages:
 * `_is_gentoo_version = ^(?:\d+)(?:\.\d+)*[a-zA-Z]?(?:_(p(?:re)?|beta|alpha|rc)\d*)*$` : `matchVersion`
@@ -90,16 +89,17 @@ def stripPrefix : List Char → List Char → Option (List Char)
   | _ :: _, [] => none
   | p :: ps, c :: cs => if p == c then stripPrefix ps cs else none
 
-/-- `suffix_regexp.match(part)`: `(suffix_value[group(1)], group(2))`; alternatives tried in the
-order of the pattern -/
-def sufMatchIn : List (List Char × Int) → List Char → Option (Int × List Char)
+/-- `suffix_regexp.match(part)`: `(group(1), suffix_value[group(1)], group(2))`; alternatives
+tried in the order of the pattern -/
+def sufMatchIn : List (List Char × Int) → List Char → Option (List Char × Int × List Char)
   | [], _ => none
   | (name, val) :: more, s =>
     match stripPrefix name s with
-    | some rest => if rest.all Char.isDigit then some (val, rest) else sufMatchIn more s
+    | some rest => if rest.all Char.isDigit then some (name, val, rest) else sufMatchIn more s
     | none => sufMatchIn more s
 
-def sufMatch (s : List Char) : Option (Int × List Char) := sufMatchIn sufNames s
+/-- `(suffix_value[match.group(1)], match.group(2))` -/
+def sufMatch (s : List Char) : Option (Int × List Char) := (sufMatchIn sufNames s).map (·.2)
 
 /-- pull a letter off the last dotted component: the components, and `ord(letter)` or `-1`.
 (Used by `vercmp` for its `letters`; there `ver_parts[-1][-1]` raises `IndexError` on an empty
@@ -237,21 +237,40 @@ def vercmp (a b : Raw) : Ordering :=
 /-- the value is a `str`: its six operators are code-point lexicographic -/
 def valOps : VOps Raw := Univers.Py.opsOfSign strCmp
 
-/-- `GentooVersion` / `AlpineLinuxVersion`: `__eq__ __lt__ __gt__` hand-written on
-`gentoo.vercmp`; `__ne__` = `not self.__eq__(other)` (attrs `Version.__ne__`);
-`__le__`, `__ge__` inherited from attrs `Version`: `(self.value,) <= (other.value,)` -/
+/-- `GentooVersion` / `AlpineLinuxVersion`: `__eq__ __lt__ __gt__ __le__ __ge__` hand-written on
+`gentoo.vercmp`; `__ne__` = `not self.__eq__(other)` (attrs `Version.__ne__`) -/
 def verOps : VOps Raw where
   eq a b := vercmp a b == .eq
   lt a b := vercmp a b == .lt
   gt a b := vercmp a b == .gt
+  le a b := vercmp a b != .gt
+  ge a b := vercmp a b != .lt
   ne a b := !(vercmp a b == .eq)
-  le a b := (Univers.Py.attrsOps valOps).le a b
-  ge a b := (Univers.Py.attrsOps valOps).ge a b
 
-/-- `GentooVersion.__hash__ is None`: `hash(version)` raises `TypeError` -/
-def hashable : Bool := false
+/-- `GentooVersion.__hash__` is defined -/
+def hashable : Bool := true
 
-/-- no hash is ever computed -/
-def hashKey (_ : Raw) : Unit := ()
+/-- the `letter` step of `get_hash_key`: `dotted[-1:].isalpha()` — (letter or `""`, the dotted
+string without it) -/
+def splitLetter (dotted : List Char) : List Char × List Char :=
+  match dotted.getLast? with
+  | some c => if c.isAlpha then ([c], dotted.dropLast) else ([], dotted)
+  | none => ([], dotted)
+
+/-- `c.rstrip("0") if c.startswith("0") else c` -/
+def hashComp (c : List Char) : List Char := if c.head? == some '0' then rstrip0 c else c
+
+/-- `(match.group(1), int("0" + match.group(2)))`, `none` when `suffix_regexp` does not match
+(such parts are filtered out) -/
+def hashSuf (p : List Char) : Option (List Char × Nat) :=
+  (sufMatchIn sufNames p).map (fun t => (t.1, natOfDigits ('0' :: t.2.2)))
+
+/-- `gentoo.get_hash_key(self.value)`: `(components, letter, suffixes, revision)`;
+`GentooVersion.__hash__` is `hash` of it -/
+def hashKey (r : Raw) : List (List Char) × List Char × List (List Char × Nat) × Nat :=
+  let vr := parseVR r
+  let p := splitOn '_' vr.1
+  let l := splitLetter p.1
+  ((splitList '.' l.2).map hashComp, l.1, p.2.filterMap hashSuf, vr.2)
 
 end Univers.Gentoo
